@@ -252,4 +252,14 @@ example : jwDCHOk Generated.eqTolerance 3 ⟨mkRat 3 4, 0⟩
     [0, ⟨mkRat 1 2, 0⟩, ⟨-1, 0⟩, ⟨mkRat 1 2, 0⟩, 0, 0, ⟨-1, 0⟩, 0, 0] = true := by
   decide +kernel
 
+/-! ### statements of C04 that are NOT proved here (covered by correspondence + Spec oracle only; see
+`OPEN_STATEMENTS` in harness/c04.py)
+
+* `reverse_jw_sound` (open):  `∀ Q m x, ⟨x| reverseJW tol Q |m⟩_fermion = ⟨x| Q |m⟩_qubit`, and its corollary
+  `reverse_jw_left_inverse`: `normal_ordered (reverse_jw (jw A)) = normal_ordered A`.
+* the exact-regime hypotheses (`jw…Ok`) cannot be dropped: `+=` deletes values below `EQ_TOLERANCE`.
+* linearity / multiplicativity / compatibility with Hermitian conjugation of `jordan_wigner` as separate
+  statements (they follow from `jw_exact` + the homomorphism theorems of the Spec semantics, C01).
+* the dual-basis jellium helpers (floating point; no Model). -/
+
 end OFV.C04
